@@ -125,6 +125,24 @@ def motion_cases(rng, n, maxkeys=10):
         out.append(case(f, ks, rows, cols))
     return out
 
+def u8_motion_cases(rng, n):
+    """C16: character-wise motions over lines dense in multi-byte characters (2-, 3- and 4-byte, wide, combining):
+    stepping to the previous character undoes stepping to the next, f/t/F/T/;/, count characters, not bytes"""
+    import gen_ex
+    out = []
+    tg = ["x", "a", "é", "中", "€", "𝄞", "ß", " ", "b"]
+    for i in range(n):
+        f = ("\n".join((gen_ex.u8_line(rng) + rng.choice(tg) + gen_ex.u8_line(rng)) for _ in range(1 + rng.below(4))) + "\n").encode()
+        parts = []
+        for _ in range(1 + rng.below(8)):
+            k = rng.below(10)
+            c = rng.pick([b"", b"", b"2", b"3"])
+            if k < 5: parts.append(c + rng.pick([b"f", b"t", b"F", b"T"]) + rng.choice(tg).encode())
+            elif k < 7: parts.append(c + rng.pick([b";", b",", b";", b","]))
+            else: parts.append(c + rng.pick([b"l", b"h", b"w", b"b", b"e", b"$", b"0", b"^", b"j", b"k", b" ", b"\x7f", b"|"]))
+        out.append(case(f, b"".join(parts), 24, 80))
+    return out
+
 def edit_cases(rng, n, maxcmds=8, screen=0):
     """mixed motions and editing commands"""
     out = []
